@@ -145,6 +145,14 @@ def apply_fn(ctx) -> FuncInfo:
             if isinstance(n, ast.Call) and (r.callee_qname(n) or "").endswith(("ThreadPoolExecutor", "ProcessPoolExecutor")):
                 cands.append(m)
                 break
+    if len(cands) > 1:
+        # a caller that merely absorbed the pool-creating helper (normal form) is not the anchor: keep the innermost one
+        # the normal form copies the pool-creating block into its callers: take the private method that holds the whole
+        # scheduling step (not a fragment absorbed by another private method, not the public entry point that absorbed it)
+        pairs = set(map(tuple, ctx.prog.inline_summary.get("pairs", [])))
+        whole = [c for c in cands if not any(o.name.startswith("_") and (o.qname, c.qname) in pairs for o in cands if o is not c)]
+        private = [c for c in whole if c.name.startswith("_")]
+        cands = private or whole or cands
     if len(cands) != 1:
         from .model import AnalysisError
 
